@@ -60,6 +60,27 @@ class PybindWrapper:
             "svg", "png", "jpeg", "html", "javascript", "markdown", "latex"
         ]
 
+    @staticmethod
+    def _cpp_string_literal(text: str) -> str:
+        """
+        The characters between the quotes of a C++ string literal which a
+        compiler decodes to `text` (UTF-8): quotes, backslashes and control
+        characters are escaped, non-printable characters are written as the
+        octal escapes of their UTF-8 bytes (three digits each, so that a
+        following digit or letter is never swallowed by the escape).
+        """
+        simple = {'\\': '\\\\', '"': '\\"', '\n': '\\n', '\t': '\\t', '\r': '\\r'}
+        res = ""
+        for char in text:
+            if char in simple:
+                res += simple[char]
+            elif char.isprintable():
+                res += char
+            else:
+                res += "".join("\\{:03o}".format(byte)
+                               for byte in char.encode("utf-8"))
+        return res
+
     def _py_args_names(self, args):
         """Set the argument names in Pybind11 format."""
         names = args.names()
@@ -278,9 +299,8 @@ class PybindWrapper:
                    suffix=suffix,
                    # Try to get the function's docstring from the Doxygen XML.
                    # If extract_docstring errors or fails to find a docstring, it just prints a warning.
-                   # The incantation repr(...)[1:-1].replace('"', r'\"') replaces newlines with \n 
-                   # and " with \" so that the docstring can be put into a C++ string on a single line.
-                   docstring=', "' + repr(self.xml_parser.extract_docstring(self.xml_source, cpp_class, cpp_method, method.args.names()))[1:-1].replace('"', r'\"') + '"' 
+                   # The docstring is put into a C++ string literal on a single line.
+                   docstring=', "' + self._cpp_string_literal(self.xml_parser.extract_docstring(self.xml_source, cpp_class, cpp_method, method.args.names())) + '"'
                        if self.xml_source != "" else "",
                ))
 
